@@ -542,7 +542,7 @@ func (fr *Frame) nextOp(x *ssa.Next, st *State) *Val {
 	u.fact(implies(ok, and(nonnil, fmt.Sprintf("(select %s %s)", dom, k), not(fmt.Sprintf("(select %s %s)", visited, k)))))
 	// exhaustion: every key of the map has been visited
 	if u.quantOK {
-		u.fact(implies(and(not(ok), nonnil), fmt.Sprintf("(forall ((qk %s)) (! (=> (select %s qk) (select %s qk)) :pattern ((select %s qk))))", ks, dom, visited, visited)))
+		u.fact(implies(and(not(ok), nonnil), fmt.Sprintf("(forall ((qk %s)) (! (=> (select %s qk) (select %s qk)) :pattern ((select %s qk)) :pattern ((select %s qk))))", ks, dom, visited, visited, dom)))
 	}
 	// a non-empty map has a key, and exhaustion covers that key as well (a ground instance of the exhaustion
 	// fact: needs no quantifier)
